@@ -170,6 +170,29 @@ func genWire(r *hx.Rand, c cfgIn, values []string, extraNames []string) []wireHd
 
 var upgradeValues = []string{"websocket", "websocket", "Websocket", "WebSocket", "WEBSOCKET"}
 
+// Upgrade is a list header (RFC 7230 section 6.7): the token may be one element of a comma separated list,
+// come with blanks, or sit on a second Upgrade line. Every site of the code that asks "is this a websocket
+// upgrade" (handler choice in ServeHTTP, X-Forwarded-For in addHeaders, ws/wss in scheme) has to give the same
+// answer on all of these.
+var upgradeListValues = []string{"websocket, h2c", "h2c, websocket", "h2c,websocket", "WebSocket,foo", "h2c", "websockets",
+	"websocket;v=13", "foo, WEBSOCKET , bar", "websocket,", ",websocket"}
+
+// genUpgrade returns the client's Upgrade line(s): mostly one exact token, a share of lists and repeated lines.
+func genUpgrade(r *hx.Rand) []wireHdr {
+	one := func() wireHdr {
+		v := r.Pick(upgradeValues)
+		if r.Chance(1, 4) {
+			v = r.Pick(upgradeListValues)
+		}
+		return wireHdr{caseVariant(r, "Upgrade"), sp(v)}
+	}
+	out := []wireHdr{one()}
+	if r.Chance(1, 6) { // a second line: websocket first / second / twice
+		out = append(out, one())
+	}
+	return out
+}
+
 // genConnection builds a client Connection header that names headers fabio maintains (any casing) mixed with
 // harmless tokens.
 func genConnection(r *hx.Rand, c cfgIn) wireHdr {
